@@ -316,7 +316,9 @@ func c16Run(r *simkit.Run) {
 	// would the repository's validator accept what the source serves?
 	var srcValid error
 
-	r.Do("setup", func() { srcValid = isaacblock.IsValidBlockFromLocalFS(srcReaders.Item, height, common.NetworkID, nil, nil, nil) })
+	r.Do("setup", func() {
+		srcValid = isaacblock.IsValidBlockFromLocalFS(srcReaders.Item, height, common.NetworkID, nil, nil, nil)
+	})
 
 	if kind == 0 && srcValid != nil {
 		panic(fmt.Sprintf("the untouched block fails the validator: %+v", srcValid))
@@ -455,7 +457,9 @@ func c16Run(r *simkit.Run) {
 
 	var verr error
 
-	r.Do("setup", func() { verr = isaacblock.IsValidBlockFromLocalFS(dstReaders.Item, height, common.NetworkID, nil, nil, nil) })
+	r.Do("setup", func() {
+		verr = isaacblock.IsValidBlockFromLocalFS(dstReaders.Item, height, common.NetworkID, nil, nil, nil)
+	})
 
 	if verr != nil {
 		r.Fail("stored-block-fails-validator", c16Kinds[kind],
@@ -466,11 +470,11 @@ func c16Run(r *simkit.Run) {
 
 func init() {
 	simkit.Register(&simkit.Harness{
-		ID:  "C16",
-		Run: c16Run,
-		Real: []string{"isaacblock.BlockImporter + LocalFSImporter (files in a per-run directory)", "isaacblock.LocalFSWriter (writes the served block)", "isaac.BlockItemReaders + default item reader", "isaacblock.IsValidBlockFromLocalFS (the reference validator)", "isaacdatabase.LeveldbBlockWrite on memory storage", "voteproof / operation / state validation"},
-		Stub: []string{"network between the sync source and the importer (items are read from the source's directory)", "database merge (flag)"},
-		Rule: "each run writes a real block (0-4 operations and states, 1-3 voters) and serves it untouched or with one of 11 tamperings (extra/missing/replaced state or operation, foreign states or operations tree, proposal or voteproofs of another block, state of another height), written by the real LocalFSWriter so that checksums and the signed block map fit the tampered items while the manifest stays the real one. 1-3 tasks import the items in a drawn order under seeded interleaving; when Save succeeds, IsValidBlockFromLocalFS must accept the stored block. distinct = event-log hash",
+		ID:          "C16",
+		Run:         c16Run,
+		Real:        []string{"isaacblock.BlockImporter + LocalFSImporter (files in a per-run directory)", "isaacblock.LocalFSWriter (writes the served block)", "isaac.BlockItemReaders + default item reader", "isaacblock.IsValidBlockFromLocalFS (the reference validator)", "isaacdatabase.LeveldbBlockWrite on memory storage", "voteproof / operation / state validation"},
+		Stub:        []string{"network between the sync source and the importer (items are read from the source's directory)", "database merge (flag)"},
+		Rule:        "each run writes a real block (0-4 operations and states, 1-3 voters) and serves it untouched or with one of 11 tamperings (extra/missing/replaced state or operation, foreign states or operations tree, proposal or voteproofs of another block, state of another height), written by the real LocalFSWriter so that checksums and the signed block map fit the tampered items while the manifest stays the real one. 1-3 tasks import the items in a drawn order under seeded interleaving; when Save succeeds, IsValidBlockFromLocalFS must accept the stored block. distinct = event-log hash",
 		Assumptions: []string{"the chain of block maps pins the manifest, so tamperings keep the manifest of the real block", "the untouched block must be importable and valid (otherwise the harness is wrong: trouble, not a violation)"},
 	})
 }
